@@ -73,9 +73,9 @@ func (s *snapStore) get(h string) world.Snapshot {
 
 func c05(tier string, args []string) int {
 	r := newRun("C05", tier, "model_checking")
-	cfgs := []ntPair{{2, 2}, {3, 2}, {3, 3}, {4, 3}}
+	cfgs := allNT(2, 4)
 	if tier == "thorough" {
-		cfgs = append(allNT(2, 4), ntPair{5, 3})
+		cfgs = allNT(2, 5)
 	}
 	r.Assume = []string{
 		"contributions are opaque to the round FSMs, so fake payloads stand for commitments/deals/responses",
